@@ -409,6 +409,18 @@ func vf33RefMustReject(q *vf33Req, n3 bool) (bool, string) {
 	}
 }
 
+// vf33ClaimedLayers is the number of verification layers the request presents in its
+// protocol form: the length of the chain for < 2.25 requests; a >= 2.25 request is one
+// layer whatever sits in its (ignored) origin fields.  Two or more layers = the request
+// claims to be a forwarded one (original sender + re-signing nodes).
+func vf33ClaimedLayers(q *vf33Req) int {
+	n := len(q.vhs())
+	if n > 1 && !vf33Legacy(q.meta) {
+		return 1
+	}
+	return n
+}
+
 // ---------------------------------------------------------------------------------------
 // peer contexts
 
@@ -991,6 +1003,8 @@ func TestVerif_C33(t *testing.T) {
 	r.Assume("ECDSA verification of the Go standard library is the ground truth for the three ECDSA schemes; N3 witnesses are judged by a model of a single-signature CheckSig witness")
 	r.Assume("API >= 2.25 requests consist of one verification layer (origin fields are ignored data per protocol); for them the reference constrains the outer layer only")
 
+	r.Assume("'one-hop request from an authenticated peer connection' = outer TTL 1, connection authenticated by peerauth, and the request does not present itself as forwarded (fewer than two verification layers); a chain of >= 2 layers has made more than one hop, the connection vouches for the last one only")
+
 	nBases := r.Pick(2000, 40000)
 	replayCase := -1
 	if p := os.Getenv("VERIF_REPLAY"); p != "" {
@@ -1078,22 +1092,51 @@ func TestVerif_C33(t *testing.T) {
 			r.Eval(1)
 			n3ok := entry == 2 && chainMode == vf33ChainOK
 			mustReject, why := vf33RefMustReject(q, n3ok)
-			exempt := entry != 0 && q.meta.GetTtl() == 1 && cx.trusted
+			// The exemption of the statement is for the ONE-HOP request of an authenticated
+			// peer: it may travel no further (TTL 1) and it came straight from that peer.
+			// A request that carries a chain of two or more verification layers states
+			// itself that it was signed by an original sender and re-signed by at least one
+			// forwarder, i.e. it has made more than one hop: the authenticated connection
+			// vouches for the last hop only, so every layer of such a chain must verify.
+			// (>= 2.25 requests have one layer by protocol, their origin fields are ignored
+			// data and do not make them forwarded.)
+			oneHopPeer := entry != 0 && q.meta.GetTtl() == 1 && cx.trusted
+			forwarded := vf33ClaimedLayers(q) >= 2
+			exempt := oneHopPeer && !forwarded
 			v, panicked := call(entry, cx.ctx, q, desc(entry))
 			if panicked {
 				continue
 			}
 			en := vf33Entries[entry]
+			if oneHopPeer && forwarded {
+				// the situation itself must be observed for the run to say anything about it
+				switch {
+				case mustReject && !v.accepted:
+					r.Count("forwarded_chain_ttl1_trusted_invalid_rejected_"+en, 1)
+					r.Seen("forwarded_chain_ttl1_trusted_invalid_rejected_mutations", mu.Kind)
+					r.Seen("forwarded_chain_ttl1_trusted_invalid_rejected_reasons", why)
+				case !mustReject && v.accepted:
+					r.Count("forwarded_chain_ttl1_trusted_valid_accepted_"+en, 1)
+				}
+			}
 			switch {
 			case v.accepted && exempt:
 				r.Count("exempt_accepted_"+en, 1)
-				if q.vh == nil {
+				switch {
+				case q.vh == nil:
 					r.Count("exempt_accepted_without_header", 1)
+				case mustReject:
+					// single (claimed) layer that does not verify, TTL 1, authenticated
+					// peer: the text exempts the one-hop request without saying that it must
+					// come without a header - observed, not judged
+					r.Count("exempt_accepted_single_layer_invalid", 1)
 				}
 			case v.accepted && mustReject:
 				key := fmt.Sprintf("accepted-invalid|%s|%s|%s", en, mode, why)
 				if q.vh == nil {
 					key = fmt.Sprintf("accepted-unsigned|%s|ttl=%s|ctx=%s", en, ttlClass, cx.name)
+				} else if oneHopPeer {
+					key += "|forwarded-chain-from-trusted-peer-ttl1"
 				}
 				r.Violation(key, fmt.Sprintf("%s accepted a request that is not authentically signed (%s) after mutation %s", en, why, mu.Kind), desc(entry))
 			case v.accepted:
@@ -1267,6 +1310,18 @@ func TestVerif_C33(t *testing.T) {
 		}
 		if r.Counter("exempt_accepted_without_header") == 0 {
 			r.Inconclusive("the one-hop exemption was never observed")
+		}
+		// the boundary of the exemption: forwarded (>= 2 layer) chains with TTL 1 on an
+		// authenticated connection, valid ones accepted and broken ones judged
+		if r.Violations() == 0 {
+			for _, en := range vf33Entries[1:] {
+				if r.Counter("forwarded_chain_ttl1_trusted_invalid_rejected_"+en) == 0 || r.Counter("forwarded_chain_ttl1_trusted_valid_accepted_"+en) == 0 {
+					r.Inconclusive("no valid+accepted / broken+rejected forwarded chain with TTL 1 from an authenticated peer observed at entry " + en)
+				}
+			}
+			if r.SeenCount("forwarded_chain_ttl1_trusted_invalid_rejected_mutations") < 10 {
+				r.Inconclusive(fmt.Sprintf("forwarded chains with TTL 1 from an authenticated peer were broken by only %d mutation kinds", r.SeenCount("forwarded_chain_ttl1_trusted_invalid_rejected_mutations")))
+			}
 		}
 	}
 }
